@@ -4,7 +4,7 @@ Exec/ProtoRun.v (Model/Protocol.v + Model/Replay.v) and compares what every oper
 from .common import *
 
 HEADER = ("From Coq Require Import List Bool Arith ZArith NArith.\nImport ListNotations.\n"
-          "From VP Require Import Model.Protocol Model.Replay Exec.Common Exec.ProtoRun.\n")
+          "From VP Require Import Model.Protocol Model.Replay Model.LMDriver Exec.Common Exec.ProtoRun.\n")
 
 VISIBLE = ("set", "observe", "jac")
 
@@ -33,7 +33,7 @@ def coq_term(case, res):
         elif o[0] == "jac":
             cops.append("OJac")
             xs.append("XJac %s" % cbool(s["v"] is not None))
-    lg = log_to_coq(log, lambda i: cN(i), lambda i, k: cN(i))
+    lg = log_to_coq(log, lambda i: "(%s, %s)" % (cN(i), cbool(log[i][2] if len(log[i]) > 2 else True)), lambda i, k: "(%s, true)" % cN(i))
     t = "proto_check %s %s %s %s %s %s" % (cnat(np_), cnat(nout), bits_list(case["model"]["init"]), lg, clist(cops), clist(xs))
     return t, {"log": log}
 
